@@ -637,7 +637,8 @@ def lt_keys(P, Ev, o):
 
 CLAIM = {
     'technique': 'static analysis: AST inventories (who-may-write/who-may-call), control-flow dominance on per-method '
-                 'supergraphs, typestate of Event.execute, linear normal forms of guards and times',
+                 'supergraphs, typestate of Event.execute, linear normal forms of guards and times, per-element abstract execution of the queue-moving '
+                 'operations (order preservation of the sorted list)',
     'level_text': 'Necessary structural conditions of the ordering/clock/at-most-once/termination mechanisms are decided for every '
                   'path of the methods that can touch the event queue and the clock; a run-level statement is not claimed.',
     'level_note': 'Trusts list/bisect semantics and non-NaN times; user code is assumed not to touch Environment internals.',
